@@ -206,6 +206,115 @@ theorem C10_declaration_order_irrelevant (σ σ' : List Name → List Name) (hσ
       ∀ steps, ∃ h h', run g steps = .ok h ∧ run g' steps = .ok h' ∧ SameAgents h h') :=
   fromConfig_order_irrelevant σ σ' hσ hσ' cfgs cfgs' hp hn hc
 
+/-! ## 3b. Agents with several shared-reward components; the driver's set-iteration oracle; weights 0 and omitted -/
+
+/-- **Every share is an arc.** The graph handed to `graph_has_cycle` / `topological_sort` has, for every agent, exactly the
+names of its shared-reward components as neighbours — the first, a middle and the last one alike, repeated names once or
+more — whatever the iteration order of the set. (A graph that records only some of an agent's shares is not this graph:
+the rig compares the real dictionary with the declared shares on every load.) -/
+theorem C10_every_share_is_an_arc (σ : List Name → List Name) (hσ : SetLike σ) (as : List (Name × Agent))
+    (u : Name) (a : Agent) (ha : as.lookup u = some a) (v : Name) :
+    v ∈ nbrs (sharingGraph σ as) u ↔ ∃ w, (Comp.shared v, w) ∈ a.comps := by
+  rw [nbrs_sharingGraph, ha]
+  simp only
+  rw [hσ]
+  constructor
+  · intro h
+    generalize a.comps = comps at h
+    induction comps with
+    | nil => simp [sharedNames] at h
+    | cons cw rest ih =>
+      obtain ⟨c, w'⟩ := cw
+      cases c <;> simp only [sharedNames, List.mem_cons] at h
+      case shared b =>
+        rcases h with h | h
+        · subst h; exact ⟨w', by simp⟩
+        · obtain ⟨w, hw⟩ := ih h; exact ⟨w, List.mem_cons_of_mem _ hw⟩
+      all_goals (obtain ⟨w, hw⟩ := ih h; exact ⟨w, List.mem_cons_of_mem _ hw⟩)
+  · intro ⟨w, hw⟩; exact mem_sharedNames_of_mem hw
+
+/-- **Every share is evaluated first.** In a game loaded by `from_config` (any neighbour-set order), and after any run of
+steps, an agent with any number of shared-reward components is evaluated after *each* of the agents it shares from —
+not only after the one named by its last component. -/
+theorem C10_every_share_evaluated_before (σ : List Name → List Name) (hσ : SetLike σ) (cfgs : List AgentCfg) (g : Game)
+    (hload : fromConfig σ cfgs = .ok g) (hc : Closed (buildAgents cfgs))
+    (n v : Name) (a : Agent) (w : Val) (ha : g.agents.lookup n = some a) (hv : (Comp.shared v, w) ∈ a.comps) :
+    v ∈ g.order ∧ n ∈ g.order ∧ g.order.idxOf v < g.order.idxOf n := by
+  have hb : hasCycle (sharingGraph σ (buildAgents cfgs)) = false := by
+    cases hb : hasCycle (sharingGraph σ (buildAgents cfgs)) with
+    | false => rfl
+    | true => rw [(fromConfig_spec σ hσ cfgs).1 hb] at hload; cases hload
+  obtain ⟨e, wf⟩ := (fromConfig_spec σ hσ cfgs).2 hb hc
+  rw [e] at hload; cases hload
+  have h := shared_mem_order wf ha (mem_sharedNames_of_mem hv)
+  exact ⟨h.1, (wf.orderMem n).mpr (List.mem_map.mpr ⟨(n, a), mem_of_lookup_agents ha, rfl⟩), h.2⟩
+
+/-- The oracle the driver hands to `fromConfig` is `SetLike` for EVERY table of observations the rig may send, so each
+model run the implementation is compared with lies inside the hypotheses of the theorems above: an observed neighbour
+collection that is not the set of the agent's shares is never copied into the model. -/
+theorem C10_sigmaOf_setLike (table : List (List Name × List Name)) : SetLike (sigmaOf table) := by
+  intro l x
+  unfold sigmaOf
+  split
+  · split
+    · rename_i o _ h
+      simp only [Bool.and_eq_true, List.all_eq_true, decide_eq_true_eq] at h
+      exact ⟨fun hx => h.1 x hx, fun hx => h.2 x hx⟩
+    · exact List.mem_eraseDups
+  · exact List.mem_eraseDups
+
+/-- A component configured with weight 0 is switched off: it contributes nothing to the step reward, whatever it
+evaluates to (its memory still advances). Negative weights are covered by `C10_weighted_sum` like any other. -/
+theorem C10_zero_weight_contributes_nothing (s : SimState) (it : Item) (cur : Name → Val) (c : Comp)
+    (pre post : List (Comp × Val)) :
+    (updateComps s it cur 0 (pre ++ (c, 0) :: post)).1 = (updateComps s it cur 0 (pre ++ post)).1 := by
+  rw [C10_weighted_sum, C10_weighted_sum]
+  simp [Rat.zero_mul, Rat.zero_add]
+
+/-! ### The accumulation over an arbitrary carrier (why the theorems speak of exact arithmetic, and what floats keep) -/
+
+/-- `total = 0.0; for (w, c): total += w * c` over an arbitrary carrier with arbitrary `add` / `mul` -/
+def weightedFold {V : Type} (add mul : V → V → V) (zero : V) (wcs : List (V × V)) : V :=
+  wcs.foldl (fun acc wc => add acc (mul wc.1 wc.2)) zero
+
+theorem updateComps_fst_eq_foldl (s : SimState) (it : Item) (cur : Name → Val) (comps : List (Comp × Val)) (acc : Val) :
+    (updateComps s it cur acc comps).1 =
+      (comps.map (fun cw => (cw.2, (calcComp s it cur cw.1).1))).foldl (fun a wc => a + wc.1 * wc.2) acc := by
+  induction comps generalizing acc with
+  | nil => rfl
+  | cons cw rest ih =>
+    obtain ⟨c, w⟩ := cw
+    simp only [updateComps, List.map_cons, List.foldl_cons]
+    exact ih _
+
+/-- The model's accumulation is literally the left fold the code performs, in the code's order of operations
+(`Gen.Reward.updateIsWeightedLeftFold` ties the shape of `RewardFunction.update` to it). -/
+theorem C10_update_is_left_fold (s : SimState) (it : Item) (cur : Name → Val) (comps : List (Comp × Val)) :
+    (updateComps s it cur 0 comps).1 =
+      weightedFold (· + ·) (· * ·) (0 : Val) (comps.map (fun cw => (cw.2, (calcComp s it cur cw.1).1))) :=
+  updateComps_fst_eq_foldl s it cur comps 0
+
+/-- **Weighted sum over any lawful arithmetic.** In every carrier whose addition is associative with a two-sided zero
+(any ordered field in particular; no law of `mul` is needed) that left fold equals the sum `w₁·c₁ + (w₂·c₂ + (… + 0))`.
+IEEE doubles are not such a carrier (addition is not associative): for them the rig checks that the fold the code computes
+lies within the forward rounding bound of this sum. -/
+theorem C10_weighted_sum_any_arithmetic {V : Type} (add mul : V → V → V) (zero : V)
+    (add_assoc : ∀ a b c, add (add a b) c = add a (add b c)) (zero_add : ∀ a, add zero a = a)
+    (add_zero : ∀ a, add a zero = a) (wcs : List (V × V)) :
+    weightedFold add mul zero wcs = (wcs.map (fun wc => mul wc.1 wc.2)).foldr add zero := by
+  unfold weightedFold
+  have h : ∀ (l : List (V × V)) (acc : V),
+      l.foldl (fun acc wc => add acc (mul wc.1 wc.2)) acc = add acc ((l.map (fun wc => mul wc.1 wc.2)).foldr add zero) := by
+    intro l
+    induction l with
+    | nil => intro acc; simp [add_zero]
+    | cons x r ih => intro acc; simp only [List.foldl_cons, List.map_cons, List.foldr_cons]; rw [ih, add_assoc]
+  rw [h, zero_add]
+
+/-- the associativity hypothesis is needed: with a non-associative `add` (truncated subtraction) the two differ -/
+example : weightedFold (fun a b : Nat => a - b) (· * ·) 5 [(1, 2), (1, 3)]
+    ≠ ([(1, 2), (1, 3)].map (fun wc : Nat × Nat => wc.1 * wc.2)).foldr (fun a b => a - b) 5 := by decide
+
 /-! ## 4. Episode total = sum of step rewards -/
 
 /-- From a loaded game, after any run of steps: every agent has one history item per step, each carrying that step's
@@ -387,6 +496,13 @@ theorem C10_gen_shape :
       "webpage-unavailable-penalty", "green-admin-database-unreachable-penalty", "shared-reward", "action-penalty"] := by
   decide
 
+/-- a component whose configuration omits `weight` is registered with the model's default, and `RewardFunction.__init__`
+passes the configured weight to `register_component` unchanged -/
+theorem C10_gen_default_weight :
+    Gen.Reward.defaultWeight = defaultWeight ∧ Gen.Reward.registerDefaultWeight = defaultWeight ∧
+    Gen.Reward.weightPassedUnchanged = true := by
+  decide
+
 /-! ## 7. Non-vacuity: concrete non-trivial instances of the hypotheses used above -/
 
 def exCfgs : List AgentCfg :=
@@ -418,5 +534,20 @@ example :
         { services := [(("srv", "web-server"), [404, 404])], browsers := [("pc2", [])] }).toOption)).map
       (fun g => g.agents.map (fun p => (p.1, p.2.current)))
       = some [("blue", -41/32), ("g2", -1/16), ("g1", -1/4)] := by decide +kernel
+
+/-- an agent with three shared-reward components, the same agent named twice, declared before everything it shares
+from: every share is an arc, the order puts all of them first, and a cycle through the FIRST-listed share is rejected -/
+def exMulti : List AgentCfg :=
+  [ { ref := "hub", comps := [(.shared "x", 1/2), (.actionPenalty (-1) (1/4), 1), (.shared "y", -1), (.shared "x", 1/4), (.shared "z", 0)] },
+    { ref := "z", comps := [(.actionPenalty (-1/2) (1/8), defaultWeight)] },
+    { ref := "y", comps := [(.shared "z", 1)] },
+    { ref := "x", comps := [(.shared "y", 3/4)] } ]
+example : (fromConfig (sigmaOf []) exMulti).toOption.map (·.order) = some ["z", "y", "x", "hub"] := by decide
+example : (fromConfig (sigmaOf [(["x", "y", "x", "z"], ["z", "x", "y"])]) exMulti).toOption.map (·.order)
+    = some ["z", "y", "x", "hub"] := by decide
+/-- an observation that lost a name is not followed (the order still has `x` before `hub`) -/
+example : sigmaOf [(["x", "y", "x", "z"], ["z"])] ["x", "y", "x", "z"] = ["x", "y", "z"] := by decide
+example : (match fromConfig (sigmaOf []) (exMulti ++ [{ ref := "x", comps := [(.shared "hub", 1)] }]) with
+    | .error .cycle => true | _ => false) = true := by decide
 
 end Primaite.Reward
